@@ -10,7 +10,8 @@
   E[X^a e^{cX}] = M^(a)(c) through the moment generating function (`get_exp_moment`).  What is
   executable about these formulas is their *coefficient table*: the list of (frequency, integer
   coefficient) pairs in the order of the two nested loops, and the normalising factor.  The model
-  mirrors the code, including the guard of `get_func_moment` that tests the key "Expt".
+  mirrors the code, including the guard of `get_func_moment` (since /repo commit e78913c it tests
+  the key "Exp"; before it tested "Expt" and let Sin/Cos + Exp through, finding F5).
 -/
 namespace Polar.Trig
 
@@ -81,10 +82,11 @@ inductive Route
 def Route.toString : Route → String
   | .trig => "trig" | .exp => "exp" | .errMixed => "error:mixed" | .errUnknown => "error:unknown"
 
-/-- the guard **as coded**: `is_exp_moment = "Expt" in func_powers` -/
+/-- the guard **as coded**: `is_exp_moment = "Exp" in func_powers`, then the two `if`s of the code
+    (`"Sin" in … or "Cos" in …` → trig, `"Exp" in …` → exp, else "Unknown functions") -/
 def routeCoded (keys : List String) : Route :=
   let isTrig := keys.contains "Sin" || keys.contains "Cos"
-  let isExp := keys.contains "Expt"
+  let isExp := keys.contains "Exp"
   if isTrig && isExp then .errMixed
   else if isTrig then .trig
   else if keys.contains "Exp" then .exp
@@ -106,7 +108,8 @@ def powerOf (powers : List (String × Nat)) (k : String) : Nat :=
   | none => 0
 
 /-- what `get_func_moment` evaluates, as a symbolic description: which transform, the derivative
-    order, the table and the divisor.  The "Exp" power is *not read* on the trig route. -/
+    order, the table and the divisor.  (`get_trig_moment` never reads the "Exp" power; the guard
+    makes sure it is absent on that route.) -/
 inductive Plan
   | trig (a b c : Nat) (table : List (Int × Int)) (norm : Nat × Nat)
   | exp (a c : Nat)
